@@ -35,6 +35,6 @@ TSpec == TInit /\ [][TNext]_tvars
 Complete == IF TLCGet("stats").diameter - 1 = Len(Rec) THEN TRUE
             ELSE Print(<<"INCOMPLETE", TLCGet("stats").diameter, Len(Rec)>>, FALSE)
 TOutOK == Outcome(st, env).class \in {"ok", "stderr", "stdout"}
-THelpWins == st.helpAt.set => Outcome(st, env).class = "stdout"
+THelpWins == (st.helpAt.set /\ ~st.ambig) => Outcome(st, env).class = "stdout"
 TDelivered == Outcome(st, env).class = "ok" => st.dead = "" /\ st.pending = ""
 =============================================================================
